@@ -4,6 +4,7 @@
   for all sizes `n m d c q`, all data, all kernel expressions, all noise forms.
 -/
 import MellonProofs.ConditionalLemmas
+import MellonProofs.CholPosDefLemmas
 
 open Matrix
 
@@ -95,6 +96,39 @@ theorem full_weights_solve_given {cov : Cov ℝ} {x : Mat ℝ n d} {y : Mat ℝ 
   simp only
   unfold choSolveM
   rw [Matrix.mul_assoc, solveUpperTM_mul hL, solveLowerM_mul hL]
+
+/-- **Well-posed inputs are accepted.** If the regularised matrix `K + N` is positive definite
+    (as it is for a positive semi-definite kernel and a positive jitter), `_FullConditional` is
+    built — the `ValueError` branch ("Covariance not positively definite") is taken only when it is
+    not. -/
+theorem full_accepts_posdef {cov : Cov ℝ} {x : Mat ℝ n d} (y : Mat ℝ n c) (mu : ℝ) {sigma : Sigma ℝ n}
+    {jitter : ℝ} {ycf : Option (AnyMat ℝ)} {yIsMean : Bool} {K' : Mat ℝ n n}
+    (hK : fullSystem cov x sigma jitter ycf yIsMean = .ok K')
+    (hpd : ∀ v : ℕ → ℝ, (∃ i, i < n ∧ v i ≠ 0) → 0 < quadForm K' v) :
+    ∃ s, fullCondInit cov x y mu Option.none sigma jitter ycf yIsMean false = .ok s := by
+  have hsymM : ∀ F, addVariance (gram cov x x) F jitter = .ok K' → ∀ i j, K'.el i j = K'.el j i := by
+    intro F hF i j
+    have hs := addVariance_symm cov x jitter F hF
+    by_cases hi : i < n
+    · by_cases hj : j < n
+      · have := congrFun (congrFun hs ⟨j, hj⟩) ⟨i, hi⟩
+        simpa using this
+      · rw [el_of_ge_col K' i (Nat.le_of_not_lt hj), el_of_ge_row K' (Nat.le_of_not_lt hj) i]
+    · rw [el_of_ge_row K' (Nat.le_of_not_lt hi) j, el_of_ge_col K' j (Nat.le_of_not_lt hi)]
+  unfold fullSystem at hK
+  unfold fullCondInit condL
+  by_cases hm : yIsMean
+  · simp only [hm, if_true] at hK ⊢
+    obtain ⟨C, hC⟩ := chol?_isSome_of_posDef K' (hsymM _ hK) hpd
+    simp only [getL, hK, bind, Except.bind, hC, Bool.not_false, if_true]
+    exact ⟨_, rfl⟩
+  · simp only [hm, if_false, Bool.false_eq_true] at hK ⊢
+    split at hK
+    · cases hK
+    · rename_i F hF
+      obtain ⟨C, hC⟩ := chol?_isSome_of_posDef K' (hsymM _ hK) hpd
+      simp only [hF, getL, hK, bind, Except.bind, hC, Bool.not_false, if_true]
+      exact ⟨_, rfl⟩
 
 /-! ### noise forms -/
 
